@@ -153,7 +153,7 @@ def run(tier):
             shp = mode
         V.violation(f"{f['kind']}:{mode}:{shp[:400]}", f"{what} at row {f['at']} in mode {mode} for sections [{shp[:300]}]",
                     # (two runs that differ are the finding itself: not to be "confirmed" by a third)
-                    {"sections": parts, "mode": mode, "run": r1.to_json(), "failure": f, "no_confirm": f["kind"] == "equal"})
+                    {"sections": parts, "mode": mode, "run": r1.to_json(), "also": [o.to_json() for o in outs[:3]], "failure": f, "no_confirm": f["kind"] == "equal"})
     for f in sfailed:
         parts, mode, outs, r1, r2, whole = res[smeta[f["run"]]]
         shp = " || ".join(stream.shape(p) for p in parts)
